@@ -29,7 +29,9 @@ def cfg_of(c):
 
 
 def build_engine(K, needs_hist, chains, seed, J, init_cfgs, included=(), excluded=(),
-                 store_kernel_states=False, error_tables=None, cap=400, via_builder=False, nq=0):
+                 store_kernel_states=False, error_tables=None, cap=400, via_builder=False, nq=0, prebuild=False):
+    """prebuild (with via_builder): the builder first builds another engine, which is run to the end and has an epoch
+    appended; the engine that is returned is built afterwards from the same builder and must be unaffected."""
     keys = [f"p{k}" for k in range(1, K + 1)]
     model = gs.DictInterface(lambda s: jnp.asarray(0.0))
     kernels = []
@@ -61,6 +63,10 @@ def build_engine(K, needs_hist, chains, seed, J, init_cfgs, included=(), exclude
         b.positions_excluded = list(excluded)
         b.store_kernel_states = store_kernel_states
         b.show_progress = False
+        if prebuild:
+            other = b.build()
+            other.sample_all_epochs()
+            other.append_epoch(EpochConfig(EpochType.POSTERIOR, max(1, int(other._jitted_sample_duration)), 1, None))
         eng = b.build()
         return eng, kernels, keys
     for i, ker in enumerate(kernels):
@@ -127,10 +133,10 @@ def merge(new_by_kernel, K):
 
 
 def run(ops, K=2, needs_hist=(2,), chains=2, seed=0, J=1, init_cfgs=(), included=(), excluded=(),
-        store_kernel_states=False, via_builder=False, meta=None, nq=0):
+        store_kernel_states=False, via_builder=False, meta=None, nq=0, prebuild=False):
     """ops: list of ("append", cfg) | ("next",) | ("all",).  Returns one trace per chain."""
     eng, kernels, keys = build_engine(K, set(needs_hist), chains, seed, J, list(init_cfgs), included,
-                                      excluded, store_kernel_states, via_builder=via_builder, nq=nq)
+                                      excluded, store_kernel_states, via_builder=via_builder, nq=nq, prebuild=prebuild)
     if via_builder:
         J = int(eng._jitted_sample_duration)
     evs = {c: [] for c in range(chains)}
@@ -208,7 +214,7 @@ def run(ops, K=2, needs_hist=(2,), chains=2, seed=0, J=1, init_cfgs=(), included
         hdr["scenario"] = {"ops": [list(o) for o in ops], "K": K, "needs_hist": list(needs_hist), "chains": chains,
                            "seed": seed, "J": J, "init_cfgs": list(init_cfgs), "included": list(included),
                            "excluded": list(excluded), "store_kernel_states": store_kernel_states,
-                           "via_builder": via_builder, "nq": nq}
+                           "via_builder": via_builder, "nq": nq, "prebuild": prebuild}
         hdr.update(meta or {})
         traces.append({"hdr": hdr, "ev": ev})
     return traces
